@@ -200,8 +200,22 @@ def expectations(lib, promiscuous, ignores):
     return must, must_not
 
 
+def with_copy_ctors(raw):
+    """every other class declares its copy constructor, cycling through the four visibilities (and sometimes '= delete')"""
+    raw = dict(raw)
+    classes = []
+    for i, c in enumerate(raw.get("classes", [])):
+        c = dict(c)
+        if i % 2 == 0:
+            c["members"] = list(c["members"]) + [{"m": "ctor", "vis": (i // 2 + len(c["members"])) % 4, "params": [{"k": "obj", "c": i, "mode": 2}], "explicit": False,
+                                                 "form": 2 if (i + len(c["members"])) % 7 == 3 else 0, "dv": 0}]
+        classes.append(c)
+    raw["classes"] = classes
+    return raw
+
+
 def judge(case, ctx):
-    lib = hgen.build(case["raw"])
+    lib = hgen.build(with_copy_ctors(case["raw"]))
     prom = case["promiscuous"]
     ents = {e["id"]: e for e in lib.entities}
     # .N command file
@@ -272,6 +286,45 @@ def judge(case, ctx):
                     return Outcome(ok=False, key="leak:wrapper-type", classes=sorted(classes),
                                    detail="a callable wrapper (function index %d) has a parameter/return of %s type %s\n%s" % (
                                        w["function"], hidden[hn]["vis"], tn, lib.files[lib.main]))
+    # constructors, judged at wrapper level (the name of a constructor carries no entity id): a user-declared constructor is callable
+    # from the scripting side iff it is declared with the requested visibility
+    cw = ctor_wrappers(db)
+    minv = 1 if prom else 0
+    type_names = {t["scoped_name"] for t in db["types"] if t["flags"] & 1}
+    for c in lib.classes:
+        if c["file"] not in ("main", "cwd") or lib.ns or c["qname"] not in type_names:
+            continue
+        if c["id"] in ignores.get("type", set()) or c["file"] in ignores.get("file", set()):
+            continue
+        ctors = [m for m in c["members"] if m["kind"] == "ctor"]
+        if not ctors:
+            continue
+
+        def cvis(m):
+            v = m["vis"]
+            if v == "public" and c.get("inpub"):
+                v = "published"
+            return hgen.VIS.index(v)
+        got = cw.get(c["id"], [])
+        copies = [m for m in ctors if len(m["params"]) == 1 and m["params"][0].kind == "obj" and m["params"][0].ref is c and m["params"][0].mode in (1, 2)]
+        others = [m for m in ctors if m not in copies]
+        classes.add("ctor.declared")
+        if copies and (cvis(copies[0]) > minv or copies[0]["form"] == "delete") and any(iscopy for _, iscopy in got):
+            classes.add("ctor.copy.hidden")
+            return Outcome(ok=False, key="leak:copy-constructor", classes=sorted(classes),
+                           detail="class %s declares its copy constructor %s%s, yet a copy-constructor wrapper is exported\noptions: %s\n%s" % (
+                               c["name"], copies[0]["vis"], " = delete" if copies[0]["form"] == "delete" else "", "-promiscuous" if prom else "default", lib.files[lib.main]))
+        if copies and (cvis(copies[0]) > minv or copies[0]["form"] == "delete"):
+            classes.add("ctor.copy.hidden")
+        allowed = {len(m["params"]) for m in others if cvis(m) <= minv and m["form"] != "delete"}
+        for n, iscopy in got:
+            if not iscopy and n not in allowed and not (n == 1 and copies):
+                classes.add("ctor.hidden")
+                return Outcome(ok=False, key="leak:constructor", classes=sorted(classes),
+                               detail="class %s: a constructor wrapper with %d parameter(s) is exported, but no constructor with that many parameters is declared %s\noptions: %s\n%s" % (
+                                   c["name"], n, "published" if not prom else "public", "-promiscuous" if prom else "default", lib.files[lib.main]))
+        if any(cvis(m) > minv for m in others):
+            classes.add("ctor.hidden")
     nt = []
     if len([c for c in classes if c.startswith("not:")]) + len({c.split(":")[2] for c in classes if c.startswith("must:")}) >= 4:
         nt.append(",".join(sorted(classes)) + ("|P" if prom else "|D"))
